@@ -43,7 +43,8 @@ def grammar():
     vals = [None, True, False, 0, 5, -3, 0.0, 2.5, -1.5, float("nan"), float("inf"), float("-inf"),
             "3.5", "-2", "abc", "", "nan",
             np.float64(1.25), np.float64("nan"), np.int64(4),
-            np.asarray(2.0), np.asarray(float("nan")), jnp.asarray(2.0), jnp.asarray(3), np.asarray(7),
+            np.asarray(2.0), np.asarray(float("nan")), jnp.asarray(2.0), jnp.asarray(3), np.asarray(7), jnp.asarray(float("nan")),
+            np.float32("nan"), np.float32(1.5), jnp.asarray([float("nan")]),
             np.asarray([1.5]), np.asarray([[0.5]]), np.asarray([-1.0]), np.asarray([float("nan")]),
             np.asarray([1.0, 2.0]), np.zeros((2, 2)), np.asarray([], dtype=float),
             [1.0, 2.0], [1.5], [], (2.0,), {"a": 1.0}, {1.0, 2.0}, slice(0, 2)]
@@ -90,7 +91,25 @@ def run(ctx):
         return o
 
     # ---- A. scalar validators over the value grammar
+    def is_nan(r):
+        try:
+            return bool(np.isnan(np.asarray(r, dtype=float)).any())
+        except (TypeError, ValueError):
+            return False
+
     for v in grammar():
+        # independent oracle (property text): a NaN scalar, in whatever container it arrives, is refused by the scalar validators,
+        # and the "positive" validators never hand back a value that is not > 0
+        for name in ("validate_float", "validate_float_or_int", "validate_positive_float"):
+            for opt in (False, True):
+                o = enc.outcome(lambda: getattr(V, name)(v, "p", opt))
+                dist["oracle/" + name] = dist.get("oracle/" + name, 0) + 1
+                if o[0] == "ok" and o[1] is not None and is_nan(o[1]):
+                    ctx.violation("C20|%s|nan-accepted" % name, "a NaN scalar is accepted by a scalar validator",
+                                  {"validator": name, "value": repr(v), "type": type(v).__name__, "optional": opt, "returned": repr(o[1])})
+                if name == "validate_positive_float" and o[0] == "ok" and o[1] is not None and not is_nan(o[1]) and not float(np.asarray(o[1], dtype=float)) > 0:
+                    ctx.violation("C20|%s|non-positive-accepted" % name, "a non-positive value is accepted by the positive-float validator",
+                                  {"validator": name, "value": repr(v), "optional": opt, "returned": repr(o[1])})
         try:
             mv = encval(v)
         except TypeError:
